@@ -12,7 +12,7 @@ use std::collections::HashSet;
 use crate::core::cell_info::get_num_children;
 use crate::core::serialization::{
     cell_to_children, cell_to_parent, get_resolution, get_stride, is_first_child,
-    FIRST_HILBERT_RESOLUTION, MAX_RESOLUTION,
+    FIRST_HILBERT_RESOLUTION, HILBERT_START_BIT, MAX_RESOLUTION,
 };
 
 /// Expands a set of A5 cells to a target resolution by generating all descendant cells.
@@ -87,13 +87,12 @@ pub fn compact(cells: &[u64]) -> Result<Vec<u64>, String> {
         return Ok(Vec::new());
     }
 
-    // Single sort and dedup
+    // Single dedup, then sort so that sibling groups are contiguous
     let unique_cells: HashSet<u64> = cells.iter().copied().collect();
     let mut current_cells: Vec<u64> = unique_cells.into_iter().collect();
-    current_cells.sort_unstable();
+    current_cells.sort_unstable_by_key(|&cell| (hierarchy_key(cell), cell));
 
     // Compact until no more changes
-    // No re-sorting needed - parents maintain sorted order!
     let mut changed = true;
     while changed {
         changed = false;
@@ -155,8 +154,27 @@ pub fn compact(cells: &[u64]) -> Result<Vec<u64>, String> {
             i += 1;
         }
 
+        if changed {
+            // A parent can coincide with a cell that was already present (its children were
+            // given together with it), and it has to take its place in the hierarchy order
+            result.sort_unstable_by_key(|&cell| (hierarchy_key(cell), cell));
+            result.dedup();
+        }
         current_cells = result;
     }
 
+    current_cells.sort_unstable();
     Ok(current_cells)
+}
+
+/// Sort key under which the cells below any cell are contiguous: the index itself, except
+/// that a base cell is placed at the start of its face's quintant range (numerically, base
+/// cell indices lie between the quintant indices of other faces, which splits sibling groups)
+fn hierarchy_key(cell: u64) -> u64 {
+    if get_resolution(cell) == 0 {
+        let face = cell >> HILBERT_START_BIT;
+        ((5 * face) << HILBERT_START_BIT) | 1
+    } else {
+        cell
+    }
 }
